@@ -317,7 +317,11 @@ def judge_source(text, part, rnd, tag, nsub, nedits):
                 if l[:1] in "+-" and l[:3] not in ("+++", "---")]
             renames = [h for h in hist if h.startswith("rename")]
             mech = None
-            if renames and all(renamed_only(diff, renames)):
+            if renames and (other1.startswith("writer raised") or
+                            all(renamed_only(diff, renames))):
+                # a renamed symbol of the edited tree is referred to from
+                # inside the other tree's datatypes / literals (or is now
+                # undeclared there, so the writer refuses)
                 mech = "copy.shared_symbol_inside_datatype"
             part.violation({
                 "kind": "edit_of_one_tree_changed_the_other",
@@ -332,23 +336,17 @@ def judge_source(text, part, rnd, tag, nsub, nedits):
 
 
 def renamed_only(diff, renames):
-    """Every changed line pair differs only by an old->new name of a rename
-    that was applied (the shared-symbol mechanism)."""
-    pairs = []
+    """Every changed line mentions the old or the new name of a rename that
+    was applied to the OTHER tree (the shared-symbol mechanism: the edit can
+    only have travelled through a symbol object both trees refer to)."""
+    import re
+    names = set()
     for r in renames:
         old, new = r.split()[1].split("->")
-        pairs.append((old.lower(), new.lower()))
-    minus = [l[1:].lower() for l in diff if l[0] == "-"]
-    plus = [l[1:].lower() for l in diff if l[0] == "+"]
-    if len(minus) != len(plus):
-        yield False
-        return
-    import re
-    for m, p in zip(minus, plus):
-        mm = m
-        for old, new in pairs:
-            mm = re.sub(r"\b%s\b" % re.escape(old), new, mm)
-        yield mm == p
+        names.update((old.lower(), new.lower()))
+    for l in diff:
+        low = l[1:].lower()
+        yield any(re.search(r"\b%s\b" % re.escape(n), low) for n in names)
 
 
 def batch(arg):
